@@ -599,7 +599,6 @@ func Sharing(r *rand.Rand, o SharingOpts) *Grammar {
 	return g
 }
 
-
 // Shapes2 enumerates bodies with exactly n nodes for a two-nonterminal grammar: leaves {a, b, eps, N0, N1},
 // operators SeqOf/2, Any/2, Optional. Used for the exhaustive small scope of mutually recursive grammars.
 func Shapes2(n int) []func(g *Grammar) *Expr {
